@@ -203,7 +203,7 @@ func (c *FailureCache) Lookup(key FailureQuestionKey) (FailureHit, bool) {
 
 	var hit FailureHit
 	found := false
-	walkFailureZones(key.Question.Name, func(zone string) bool {
+	walkFailureZones(failureZoneWalkOrigin(key.Question), func(zone string) bool {
 		entry, ok := c.loadZone(FailureZoneKey{Zone: zone, Qclass: key.Question.Qclass})
 		if !ok || !now.Before(entry.retryAfter) {
 			return true
@@ -242,7 +242,7 @@ func (c *FailureCache) LookupWire(name []byte, qtype, qclass uint16, cd bool) (F
 
 	var hit FailureHit
 	found := false
-	walkWireSuffixes(name, func(zone []byte) bool {
+	walkWireSuffixes(wireFailureZoneWalkOrigin(name, qtype), func(zone []byte) bool {
 		hash, ok := internalcache.KeyWire(zone, dns.TypeSOA, qclass, false)
 		if !ok {
 			return true
@@ -307,7 +307,7 @@ func (c *FailureCache) RetryKey(key FailureQuestionKey) (uint64, bool) {
 		hasClosestZoneExpired bool
 		activeZone            bool
 	)
-	walkFailureZones(key.Question.Name, func(zone string) bool {
+	walkFailureZones(failureZoneWalkOrigin(key.Question), func(zone string) bool {
 		zoneKey := FailureZoneKey{Zone: zone, Qclass: key.Question.Qclass}
 		entry, hash, ok := c.loadZoneWithHash(zoneKey)
 		if !ok {
@@ -408,7 +408,7 @@ func (c *FailureCache) ResetMatching(key FailureQuestionKey) int {
 	if c.ResetQuestion(key) {
 		removed++
 	}
-	walkFailureZones(key.Question.Name, func(zone string) bool {
+	walkFailureZones(failureZoneWalkOrigin(key.Question), func(zone string) bool {
 		if c.ResetZone(FailureZoneKey{Zone: zone, Qclass: key.Question.Qclass}) {
 			removed++
 		}
@@ -601,6 +601,39 @@ func failureQuestionKeysEqual(a, b FailureQuestionKey) bool {
 
 func failureZoneKeysEqual(a, b FailureZoneKey) bool {
 	return a.Zone == b.Zone && a.Qclass == b.Qclass
+}
+
+// failureZoneWalkOrigin returns the name the ancestor-zone walk starts from:
+// the closest name whose zone's servers could be asked the question. That is
+// the question name itself, except for DS: the DS RRset of a delegation
+// belongs to, and is served by, the parent side of the cut (RFC 4035
+// section 3.1.4.1; Resolver.searchCache moves a DS question one label up the
+// same way). A failure of the zone at the DS owner name says nothing about
+// the servers that question goes to, and a DS answer says nothing about the
+// health of the zone it delegates to.
+func failureZoneWalkOrigin(q dns.Question) string {
+	name := dns.CanonicalName(q.Name)
+	if q.Qtype != dns.TypeDS || name == "." {
+		return name
+	}
+	next, end := dns.NextLabel(name, 0)
+	if end {
+		return "."
+	}
+	return name[next:]
+}
+
+// wireFailureZoneWalkOrigin is failureZoneWalkOrigin for an uncompressed wire
+// name: a DS question skips its first label.
+func wireFailureZoneWalkOrigin(name []byte, qtype uint16) []byte {
+	if qtype != dns.TypeDS || len(name) == 0 {
+		return name
+	}
+	c := int(name[0])
+	if c == 0 || c > 63 || 1+c >= len(name) {
+		return name
+	}
+	return name[1+c:]
 }
 
 func walkFailureZones(name string, visit func(zone string) bool) {
